@@ -275,6 +275,8 @@ def cases(tier, rng):
                    "first": rng.randrange(1, len(cuts) + 2)}
     # 2b. lazily read, row-indexed pieces written back
     yield from rewrite_cases(tier, rng)
+    yield from replace_cases(tier, rng)
+    yield from again_cases(tier, rng)
     # 2c. header-bearing formats with zero rows in total: the header must still be there exactly once
     for fmt in ("vcf", "vcfs", "csvh"):
         for cuts in ([], [0], [0, 0], [0, 0, 0]):
@@ -329,6 +331,46 @@ def rewrite_cases(tier, rng):
             sels = [g_selection(rng, n) for _ in range(rng.choice([1, 2, 2, 3, 4]))]
             yield {"op": "rewrite", "fmt": fmt, "rows": rows, "sel": sels,
                    "how": rng.choice(["concat", "concat", "successive", "concat_twice"]), "gz": rng.random() < 0.25}
+
+
+REPLACE_FMTS = ["bed3", "bed6", "bdg", "narrowpeak", "gtf", "sam", "vcfs", "fastq", "sizes", "pairs"]
+
+
+def replace_cases(tier, rng):
+    """a table READ LAZILY (default reader) from a text file, ONE field replaced by new values, then written: the bytes
+    must be the canonical serialisation of the table with that column replaced (all other fields as in the source)"""
+    per = {"quick": 3, "thorough": 40, "widen": 10}[tier]
+    for fmt in REPLACE_FMTS:
+        for j in range(len(T[fmt][3])):
+            for _ in range(per):
+                n = rng.choice([1, 2, 3, 5])
+                rows = [g_row(rng, fmt) for _ in range(n)]
+                new = [g_row(rng, fmt) for _ in range(n)]
+                if fmt == "fastq":                    # keep sequence and quality lengths consistent per record
+                    for r, q in zip(rows, new):
+                        q[1] = "".join(rng.choice("ACGTN") for _ in r[1])
+                        q[2] = [rng.randrange(0, 94) for _ in r[1]]
+                yield {"op": "replace", "fmt": fmt, "rows": rows, "field": j, "values": [q[j] for q in new],
+                       "lazy": rng.random() < 0.8, "gz": rng.random() < 0.2}
+
+
+def again_cases(tier, rng):
+    """one eager table object written several times: whole, a slice of it, whole again, to separate targets; every
+    output must be canonical for the rows written and the table object must be unchanged afterwards"""
+    per = {"quick": 6, "thorough": 80, "widen": 20}[tier]
+    for fmt in T:
+        for _ in range(per):
+            n = rng.choice([1, 2, 3, 5, 8])
+            rows = [g_row(rng, fmt) for _ in range(n)]
+            steps = []
+            for _ in range(rng.choice([2, 3, 4])):
+                if rng.random() < 0.5:
+                    steps.append([0, n, 1])
+                else:
+                    a = rng.randrange(0, n + 1)
+                    steps.append([a, rng.randrange(a, n + 1), rng.choice([1, 1, 2])])
+            yield {"op": "again", "fmt": fmt, "rows": rows, "steps": steps, "gz": rng.random() < 0.2,
+                   "nested": rng.random() < 0.3}
 
 
 def _pieces(c):
@@ -402,9 +444,79 @@ def _impl_rewrite(c):
         return {"err": "rewrite:" + type(e).__name__}
 
 
+def _impl_replace(c):
+    import dataclasses
+    import logging
+    import bionumpy as bnp
+    logging.disable(logging.CRITICAL)
+    fmt = c["fmt"]
+    BT = _bt(T[fmt][0])
+    d = _tmpdir()
+    src = os.path.join(d, "rsrc" + T[fmt][2])
+    dst = os.path.join(d, "rdst" + T[fmt][2] + (".gz" if c.get("gz") else ""))
+    with open(src, "wb") as fh:
+        fh.write((SRC_HEADER.get(fmt, "") + ref_body(fmt, c["rows"])).encode("latin1"))
+    if os.path.exists(dst):
+        os.remove(dst)
+    try:
+        r = bnp.open(src, buffer_type=BT) if c.get("lazy", True) else bnp.open(src, buffer_type=BT, lazy=False)
+        try:
+            data = r.read()
+            name = T[fmt][3][c["field"]][0]
+            rows2 = [list(row) for row in c["rows"]]
+            for row, v in zip(rows2, c["values"]):
+                row[c["field"]] = v
+            newcol = getattr(_table(fmt, rows2), name)
+            data2 = bnp.replace(data, **{name: newcol})
+            with bnp.open(dst, "w", buffer_type=BT) as f:
+                f.write(data2)
+        finally:
+            r.close()
+        raw = open(dst, "rb").read()
+        return {"bytes": (gzip.decompress(raw) if c.get("gz") and raw else raw).decode("latin1")}
+    except Exception as e:
+        return {"err": "replace:" + type(e).__name__}
+
+
+def _snapshot(fmt, t):
+    import dataclasses
+    return [c02._canon_col(getattr(t, f.name)) for f in dataclasses.fields(t)]
+
+
+def _impl_again(c):
+    import logging
+    import bionumpy as bnp
+    logging.disable(logging.CRITICAL)
+    fmt = c["fmt"]
+    BT = _bt(T[fmt][0])
+    d = _tmpdir()
+    try:
+        t = _table(fmt, c["rows"])
+        before = _snapshot(fmt, t)
+        outs = []
+        for i, (a, b, st) in enumerate(c["steps"]):
+            dst = os.path.join(d, f"again{i}" + T[fmt][2] + (".gz" if c.get("gz") else ""))
+            if os.path.exists(dst):
+                os.remove(dst)
+            part = t if (a, b, st) == (0, len(c["rows"]), 1) else t[a:b:st]
+            if c.get("nested") and len(part):
+                part = part[0:len(part)]                     # a slice of a slice: still views of the same arrays
+            with bnp.open(dst, "w", buffer_type=BT) as f:
+                f.write(part)
+            raw = open(dst, "rb").read()
+            outs.append((gzip.decompress(raw) if c.get("gz") and raw else raw).decode("latin1"))
+        return {"outs": outs, "unchanged": _snapshot(fmt, t) == before}
+    except Exception as e:
+        return {"err": "again:" + type(e).__name__}
+
+
 def impl(c):
     if c["op"] == "rewrite":
         return _impl_rewrite(c)
+    if c["op"] == "replace":
+        return _impl_replace(c)
+    if c["op"] == "again":
+        return _impl_again(c)
     import logging
     import bionumpy as bnp
     from bionumpy.streams import NpDataclassStream
@@ -511,6 +623,15 @@ def oracle(c):
         if c["how"] == "concat_twice":
             order += _select(n, c["sel"][0])
         return {"bytes": SRC_HEADER.get(fmt, "") + ref_body(fmt, [c["rows"][i] for i in order])}
+    if c["op"] == "replace":
+        rows2 = [list(r) for r in c["rows"]]
+        for r, v in zip(rows2, c["values"]):
+            r[c["field"]] = v
+        if not _representable(fmt, rows2):
+            return SKIP
+        return {"bytes": SRC_HEADER.get(fmt, "") + ref_body(fmt, rows2)}
+    if c["op"] == "again":
+        return {"bodies": [ref_body(fmt, c["rows"][a:b:st]) for a, b, st in c["steps"]], "unchanged": True}
     # a header (if the format has one) stands exactly once in front as soon as one write call was made
     return {"body": ref_body(fmt, c["rows"]), "headers": 1 if (fmt in HAS_HEADER and n_calls(c) > 0) else 0}
 
@@ -544,11 +665,69 @@ def _split_header(text, fmt=None):
     return text[:i], text[i:]
 
 
+def _strip_src_header(fmt, text):
+    mark = {"vcfs": "#", "sam": "@"}.get(fmt)
+    if not mark:
+        return "", text
+    k = 0
+    while k < len(text) and text[k] == mark:
+        k = text.index("\n", k) + 1
+    return text[:k], text[k:]
+
+
+def _cells_equal(a, b):
+    if a == b:
+        return True
+    try:
+        x, y = float(a), float(b)
+    except ValueError:
+        return False
+    return abs(x - y) <= 1e-12 * max(abs(x), abs(y))
+
+
+def _agree_replace(c, text, want):
+    """lazily read: byte-exact (unmodified fields keep their source text, the source header is kept);
+    eagerly read: the other fields are re-serialised from parsed values, so float cells are compared by value and the
+    header block is the writer's own choice (exactly one #CHROM line for VCF)"""
+    if c.get("lazy", True):
+        return text == want
+    fmt = c["fmt"]
+    head, body = _strip_src_header(fmt, text)
+    _, wbody = _strip_src_header(fmt, want)
+    if fmt == "vcfs" and len(re.findall(r"(^|\n)#CHROM\t", head)) != 1:
+        return False
+    la, lb = body.split("\n"), wbody.split("\n")
+    if len(la) != len(lb):
+        return False
+    for x, y in zip(la, lb):
+        cx, cy = x.split("\t"), y.split("\t")
+        if len(cx) != len(cy) or not all(_cells_equal(p, q) for p, q in zip(cx, cy)):
+            return False
+    return True
+
+
 def agree(c, got, exp):
+    if c["op"] == "again":
+        if not isinstance(got, dict) or "outs" not in got or got.get("unchanged") is not True:
+            return False
+        if len(got["outs"]) != len(exp["bodies"]):
+            return False
+        for text, body in zip(got["outs"], exp["bodies"]):
+            fmt = c["fmt"]
+            if fmt in HAS_HEADER:
+                head, rest = _split_header(text, fmt)
+                n_hdr = len(re.findall(r"(^|\n)#CHROM\t", head)) if fmt != "csvh" else len(head) // len(CSVH_HEADER)
+                if n_hdr != 1 or rest != body:
+                    return False
+            elif text != body:
+                return False
+        return True
     if not isinstance(got, dict) or "bytes" not in got:
         return False
     if c["op"] == "rewrite":
         return got["bytes"] == exp["bytes"]
+    if c["op"] == "replace":
+        return _agree_replace(c, got["bytes"], exp["bytes"])
     fmt = c["fmt"]
     text = got["bytes"]
     if fmt in HAS_HEADER:
@@ -599,6 +778,8 @@ def model_request(c):
 def nontrivial(c):
     if c["op"] == "rewrite":
         return len(c["sel"]) >= 2 or c["how"] != "concat"
+    if c["op"] in ("replace", "again"):
+        return True
     if c["cuts"] or c["mode"] != "plain":
         return True
     if c["fmt"] == "fasta":
@@ -611,6 +792,13 @@ def finding_key(c, got, exp):
     if c["op"] == "rewrite":
         kind = "raises" if (isinstance(got, dict) and "err" in got) else "bytes-differ"
         return f"rewrite-lazy-pieces:{fmt}:{c['how']}:{kind}"
+    if c["op"] == "replace":
+        kind = "raises" if (isinstance(got, dict) and "err" in got) else "bytes-differ"
+        return f"replace-field:{fmt}:{T[fmt][3][c['field']][0]}:{'lazy' if c.get('lazy', True) else 'eager'}:{kind}"
+    if c["op"] == "again":
+        if isinstance(got, dict) and got.get("unchanged") is False:
+            return f"write-again:{fmt}:table-object-modified-by-write"
+        return f"write-again:{fmt}:{'raises' if isinstance(got, dict) and 'err' in got else 'bytes-differ'}"
     if fmt == "fasta" and any(len(r[1]) == 0 for r in c["rows"]):
         return "fasta-write:empty-sequence"
     if isinstance(got, dict) and got.get("err", "").startswith("write:"):
